@@ -3,6 +3,7 @@ from vmon import gen, prog
 from vmon.seqmon import TilingMonitor
 
 LEVEL = "exploration"
+SOAK = True  # thorough tier also runs the repository's own tests with this monitor attached (vmon/pytest_plugin.py)
 RULE = ("online-generated building histories (all ops, all protocols, failing calls interleaved) on random channel "
         "configurations; invariant checked after every call. non-trivial = history with >= 2 channels, >= 1 "
         "auto-inserted delay and >= 1 clock/min-duration rounding (distinct case indices)")
